@@ -170,6 +170,7 @@ func run(ctx *Ctx) *Result {
 			cases = append(cases, genFixed(4)...)
 		}
 		cases = append(cases, genFaults(ctx.Thorough())...)
+		cases = append(cases, genMulti(ctx.Thorough())...)
 		// quick tier: the placements that end in a time-out of the real code (known finding) cost > 1 s each
 		if !ctx.Thorough() {
 			var keep []Case
@@ -411,6 +412,8 @@ func judge(ctx *Ctx, res *Result, drv *Nadrv, c *Case, o *WOutcome, base *WOutco
 		res.Count("theorem-domain:two-prompt banner on a plain SendCmd (F-C15e)")
 	case len(c.Fixed) > 0 && hClean && hNoProbe:
 		res.Count("theorem-domain:inside (banner on a fixed line)")
+	case c.Multi != nil:
+		res.Count("theorem-domain:several banners in one answer:" + c.Multi.Shape)
 	case c.SpecialIsBanner != "":
 		res.Count("theorem-domain:reload dialogue banner (dialogues only)")
 	case hClean && hNoProbe:
@@ -534,6 +537,9 @@ func judge(ctx *Ctx, res *Result, drv *Nadrv, c *Case, o *WOutcome, base *WOutco
 			break
 		}
 		halves := strings.Split(ch, "\n")
+		if c.Multi != nil && c.Multi.Line == halves[0] {
+			continue // judged below
+		}
 		one := -1
 		for h, l := range halves {
 			if b := c.Behav[l]; b.Form != "" && isOneMinute(b.Msg) {
@@ -577,6 +583,29 @@ func judge(ctx *Ctx, res *Result, drv *Nadrv, c *Case, o *WOutcome, base *WOutco
 			fail(sig, fmt.Sprintf("send %d: %d re-arm exchange(s), expected %d", i, got, want))
 		}
 	}
+	// several banners in one answer, one of them the one-minute warning: a re-arm must follow
+	if m := c.Multi; m != nil && m.Line != "sh run" {
+		oneMin := false
+		for _, x := range m.Msgs {
+			oneMin = oneMin || isOneMinute(x)
+		}
+		pos := -1
+		for j, x := range ls {
+			if x == m.Line {
+				pos = j
+			}
+		}
+		switch {
+		case o.Status != 0:
+			res.Count("oracle-skipped:re-arm after several banners (run aborted)")
+		case pos >= 0:
+			got := pos+1 < len(ls) && ls[pos+1] == "do reload in 2"
+			if got != oneMin {
+				fail(map[string]any{"pred": "one_minute_among_several_banners_rearm_mismatch", "shape": m.Shape, "first_is_one_minute": isOneMinute(m.Msgs[0])},
+					fmt.Sprintf("answer with banners %v: re-arm sent %v, expected %v", m.Msgs, got, oneMin))
+			}
+		}
+	}
 	// the one-minute warning on a command that is not sent through cmd(): the property's last clause
 	// asks for a re-arm whatever command the warning rides on
 	for _, l := range []string{"configure terminal", "end"} {
@@ -609,7 +638,13 @@ func judge(ctx *Ctx, res *Result, drv *Nadrv, c *Case, o *WOutcome, base *WOutco
 			nonBlankLines(errText(base.Stderr)) == nonBlankLines(errText(o.Stderr))
 		if !same {
 			sig := map[string]any{"pred": "banner_changes_outcome"}
-			if twoPromptFixed {
+			if c.Multi != nil {
+				kind := "change"
+				if c.Multi.Line == "sh run" {
+					kind = "sh run"
+				}
+				sig = map[string]any{"pred": "several_banners_in_one_answer", "shape": c.Multi.Shape, "on": kind}
+			} else if twoPromptFixed {
 				sig = map[string]any{"pred": "two_prompt_banner_on_plain_sendcmd", "line": twoPromptLine(c)}
 			} else if hClean && hNoProbe {
 				// inside the domain of banner_invariant_partial: never expected
